@@ -85,6 +85,8 @@ def record_engine(chk, eng, entry):
         chk.analysed["functions"].add(k[1])
     for name, n in eng.unmodelled.items():
         chk.extra.setdefault("unmodelled", {})[name] = chk.extra.setdefault("unmodelled", {}).get(name, 0) + n
+    for name, n in getattr(eng, "aborted", {}).items():
+        chk.extra.setdefault("unexplored_paths", {})[name] = chk.extra.setdefault("unexplored_paths", {}).get(name, 0) + n
     for name, n in eng.assumed_total.items():
         chk.extra.setdefault("assumed_total", {})[name] = chk.extra.setdefault("assumed_total", {}).get(name, 0) + n
 
